@@ -9,7 +9,10 @@ COMMON_ASSUME = [
 
 PROPS = {
     "C18": {
-        "units": [{"pkg": "./mainpkg", "run": "^TestC18", "shards": 4, "shards_thorough": 8, "timeout": 1200}],
+        "units": [
+            {"pkg": "./mainpkg", "run": "^TestC18", "shards": 4, "shards_thorough": 8, "timeout": 1200},
+            {"pkg": "./sysbin", "run": "^TestC18", "shards": 1, "shards_thorough": 2, "timeout": 900},
+        ],
         "rule": ("rapid-generated shutdown scenarios against the exported listener functions: any non-empty subset of {http, tcp, tcp+sni, grpc, https+tcp+sni} registered through ListenAndServeHTTP/TCP/GRPC/HTTPSTCPSNI "
                  "on free loopback ports (the gRPC one with main.go's newGrpcProxy options), wait W in [200 ms, 1.5 s], 0-3 pieces of in-flight work per listener (HTTP and HTTPS requests, TCP and SNI tunnels incl. SNI "
                  "tunnels on the https+tcp+sni listener, gRPC unary calls and streams) whose upstream takes d in [0, 0.5 W] or [2 W, 4 W] or never finishes, and a shutdown moment drawn relative to the start of the work. "
@@ -107,6 +110,7 @@ PROPS = {
         "units": [
             {"pkg": "./c19", "shards": 2, "shards_thorough": 8, "timeout": 900},
             {"pkg": "./mainpkg", "run": "^TestC19", "shards": 1, "shards_thorough": 2, "timeout": 900},
+            {"pkg": "./sysbin", "run": "^TestC19", "shards": 1, "shards_thorough": 2, "timeout": 900},
         ],
         "rule": ("rapid-generated values of the five proxy transport options (dial timeout, response-header timeout, keep-alive, idle-conn timeout, max idle conns per host; each incl. 0) drawn independently. Structural "
                  "oracle for every configuration and the three transport kinds (default, skip-verify, per-route host= override built by route.NewTable, and the transports main.go's newHTTPProxy builds): after "
@@ -182,6 +186,7 @@ PROPS = {
         "units": [
             {"pkg": "./c15", "shards": 8, "shards_thorough": 16, "timeout": 900},
             {"pkg": "./mainpkg", "run": "^TestC15", "shards": 2, "shards_thorough": 4, "timeout": 900},
+            {"pkg": "./sysbin", "run": "^TestC15", "shards": 1, "shards_thorough": 2, "timeout": 900},
         ],
         "fuzz": [{"pkg": "./c15", "target": "FuzzC15Properties", "time": "180s"}, {"pkg": "./c15", "target": "FuzzC15Environ", "time": "180s"}],
         "rule": ("the option list (name, type) is extracted at run time from config/load.go of the tree under test; for EVERY option and EVERY unordered pair of the four sources (command line in -k=v / -k v / --k=v form, "
